@@ -103,7 +103,10 @@ def run (c : Case) : String :=
       let s := Ro.Share.nrun cfg evs
       let up := if (justPre c).isSome then [] else (Ro.Share.ncounters cfg {} evs).map fun p => s!"{p.1}/{p.2}"
       let uctx := if (justPre c).isSome then "-" else renderUctx s
-      s!"res {c.id} traces={renderTraces (Ro.Share.traces s)} up={renderList up} drops={renderList (s.drops.map renderEv)} unhandled=- escaped=- uctx={uctx}"
+      -- twin=1: the same operator value applied to a second source with a subscriber of its own: the two shared observables have
+      -- nothing in common (the state of Share lives in the observable it returns, C12 reapply), so this run is unchanged
+      let twin := if c.getD "twin" "-" == "1" then " twin=ok" else ""
+      s!"res {c.id} traces={renderTraces (Ro.Share.traces s)} up={renderList up} drops={renderList (s.drops.map renderEv)} unhandled=- escaped=- uctx={uctx}{twin}"
   | _, _ => s!"res {c.id} bad-case"
 
 /-! ### kind=sharet: a subscriber re-subscribes from inside its terminal callback
@@ -151,7 +154,7 @@ def runTerm (c : Case) : String :=
       | some (evs, rep) =>
         let s := Ro.Share.nrun cfg evs
         let up := ((Ro.Share.ncounters cfg {} evs).zip rep).filterMap fun (p, r) => if r then some s!"{p.1}/{p.2}" else none
-        s!"res {c.id} traces={renderTraces (Ro.Share.traces s)} up={renderList up} drops={renderList (s.drops.map renderEv)} unhandled=- escaped=- uctx={renderUctx s}"
+        s!"res {c.id} traces={renderTraces (Ro.Share.traces s)} up={renderList up} drops={renderList (s.drops.map renderEv)} unhandled=- escaped=- uctx={renderUctx s}{if c.getD "twin" "-" == "1" then " twin=ok" else ""}"
 
 /-! ### connectable -/
 
